@@ -367,6 +367,12 @@ def run(ctx):
     ctx.require('binary_frames_through_bridge', 50)
     for cfg in CONFIGS:
         ctx.require('sessions_%s_%s_%s' % cfg, 1)
+    # real transport (threaded pairing over 127.0.0.1, HTTP long-polling)
+    from checks import c02_tcp
+    ctx.require('tcp_messages_judged', 10)
+    c02_tcp.run_part(ctx, (ctx.budget or 40) * 0.12, k0=ctx.shard * 10000)
+    if ctx.counters.get('tcp_sessions_unavailable'):
+        ctx.required.pop('tcp_messages_judged', None)
     k = ctx.shard * 8
     while not ctx.out_of_time() and not ctx.too_many_violations():
         run_case(ctx, k)
@@ -374,4 +380,7 @@ def run(ctx):
 
 
 def replay(ctx, w):
+    if w['witness'].get('part') == 'tcp':
+        from checks import c02_tcp
+        return c02_tcp.replay(ctx, w)
     run_case(ctx, w['witness']['case_index'])
